@@ -73,11 +73,18 @@ def check_one(body: Any) -> tuple[str, list[tuple[str, str]]]:
 def worker(k: int, n: int, thorough: bool) -> Part:
     part = Part()
     seen: set[bytes] = set()
+    kept: list[tuple[Any, Any, bytes]] = []   # (original, parsed, frame) of bodies parsed earlier: looked at again after everything else was parsed
     for i, body in enumerate(bodies(thorough)):
         if i % n != k:
             continue
         part.evaluations += 1
         outcome, viols = check_one(body)
+        if outcome == "ok" and (len(kept) < 400 or i % 7 == 0):
+            try:
+                raw0 = KNXIPFrame.init_from_body(body).to_knx()
+                kept.append((body, KNXIPFrame.from_knx(raw0)[0], raw0))
+            except Exception:  # noqa: BLE001
+                pass
         part.outcomes[outcome] += 1
         name = type(body).__name__
         part.extra.setdefault("classes", [])
@@ -93,6 +100,17 @@ def worker(k: int, n: int, thorough: bool) -> Part:
             pass
         for sig, detail in viols:
             part.viol(sig, detail, [name, repr(body)[:400]], rank=(len(repr(body)),))
+    # a parsed body is a value of its own: parsing other frames afterwards must not change it (e.g. two gateways answering one search)
+    for body, frame, raw0 in kept:
+        part.evaluations += 1
+        name = type(body).__name__
+        try:
+            still = body_eq(frame.body, body) and frame.to_knx() == raw0
+        except Exception as exc:  # noqa: BLE001
+            part.viol(exc_sig(f"parsed-body-unusable-later:{name}", exc), f"{raw0.hex()}: {exc!r}", [name, repr(body)[:400]])
+            continue
+        if not still:
+            part.viol(f"parsed-body-changed-by-later-parsing:{name}:{changed_fields(body, frame.body)}", f"{raw0.hex()} parsed to an equal body, which reads {frame.body!r} after other frames were parsed", [name, repr(body)[:400]])
     return part
 
 
@@ -100,7 +118,7 @@ def run(ctx: Ctx) -> None:
     ctx.rule = (
         "instances of all 29 concrete KNXIPBody classes over constructor alphabets (4 HPAIs, every CRI/CRD variant, DIB lists of length 0..2 over 9 DIBs "
         "in every order, SRP lists 0..2, every ErrorCode/ReturnCode/feature type/status code, cEMI lengths 0/1/11/255): header length = serialised length = "
-        "6+calculated_length(); parse gives an equal body, no rest, identical re-serialisation. non-trivial = distinct serialised frames"
+        "6+calculated_length(); parse gives an equal body, no rest, identical re-serialisation; parsed bodies are looked at again after all other frames were parsed (no aliasing between parsed values). non-trivial = distinct serialised frames"
     )
     n = 16
     ctx.pmap(worker, [(k, n, ctx.thorough) for k in range(n)])
